@@ -165,25 +165,30 @@ def correspond(ctx):
                 add_pubkey(c, tok, cv, d, "toy-%s pubkey %s" % (mode, "d in range" if 1 <= d < n else "d out"), 1e-5)
     small = set(E.SMALL_NAMED)
     for cv in E.named_curves():
-        n, tok, mc = int(cv.order), E.token(cv), mulcost(cv)
+        n, tok, mc, lc = int(cv.order), E.token(cv), E.linecost(cv), E.linecost(cv, False)
         big = cv.name not in small
-        rep = 1 if q else (6 if big else 30)
-        if not big and q:
-            rep = 4
+        rep = (1 if big else 3) if q else (10 if big else 60)
+        # quick tier on the big curves: every error class, a sample of the rest (the driver takes 0.05-0.3 s per line there)
+        keep = (lambda cls: cls in ("k=0", "k=n", "k=2n", "k=n-1", "k=blind-edge", "d=0", "d=n", "d=n-1", "h=0", "h=n", "h=huge")
+                or rng.random() < 0.35) if (big and q) else (lambda cls: True)
         for _ in range(rep):
             rd = lambda: rng.randrange(1, n)
-            for cls, k in k_values(rng, n, 2):
-                add_sign(c, tok, cv, rd(), rng.randrange(n), k, cls, mc)
-            for cls, d in d_values(rng, n, 1):
-                add_sign(c, tok, cv, d, rng.randrange(n), rd(), cls, mc)
-            for cls, h in h_values(rng, n, 1):
-                add_sign(c, tok, cv, rd(), h, rd(), cls, mc)
             for cls, k in k_values(rng, n, 1):
-                if cls in ("k=0", "k=n", "k=-1", "k=n+1") or rng.random() < (0.3 if big else 1.0):
-                    add_sign_number(c, tok, cv, rd(), rng.choice((0, n, rng.getrandbits(bitlen(n) + 8))), k,
-                                    "sign_number " + cls, mc if 1 <= k < n else 1e-4)
+                if keep(cls):
+                    add_sign(c, tok, cv, rd(), rng.randrange(n), k, cls, mc)
             for cls, d in d_values(rng, n, 1):
-                add_pubkey(c, tok, cv, d, "pubkey " + cls, mc if 1 <= d < n else 1e-4)
+                if keep(cls):
+                    add_sign(c, tok, cv, d, rng.randrange(n), rd(), cls, mc)
+            for cls, h in h_values(rng, n, 1):
+                if keep(cls):
+                    add_sign(c, tok, cv, rd(), h, rd(), cls, mc)
+            for cls, k in k_values(rng, n, 1):
+                if cls in ("k=0", "k=n") or rng.random() < (0.2 if big else 1.0):
+                    add_sign_number(c, tok, cv, rd(), rng.choice((0, n, rng.getrandbits(bitlen(n) + 8))), k,
+                                    "sign_number " + cls, mc if 1 <= k < n else lc)
+            for cls, d in d_values(rng, n, 1):
+                if cls in ("d=0", "d=n", "d=n-1") or rng.random() < (0.2 if big else 1.0):
+                    add_pubkey(c, tok, cv, d, "pubkey " + cls, mc if 1 <= d < n else lc)
     c.run()
 
 
@@ -285,11 +290,17 @@ def check(ctx, i, tag):
 
 
 def search(ctx):
-    from ecdsa.util import orderlen
-    from ecdsa.ecdsa import RSZeroError
-    rng, q = ctx.rng, ctx.quick
     ctx.cov["search_evaluations"] = 0
+    for name, fn in (("search: truncation", search_truncate), ("search: toy exhaustive", search_toy), ("search: named curves", search_named)):
+        with E.timed(ctx, name):
+            fn(ctx)
+        if E.capped(ctx):
+            return
 
+
+def search_truncate(ctx):
+    from ecdsa.util import orderlen
+    rng, q = ctx.rng, ctx.quick
     # (1) truncation: every bit length, every digest length around the order length
     orders = []
     for nb in list(range(2, 73)) + [79, 80, 81, 112, 127, 128, 129, 159, 160, 161, 255, 256, 257, 383, 384, 385, 511, 512, 513, 520, 521, 522, 600]:
@@ -311,6 +322,10 @@ def search(ctx):
                         if E.capped(ctx):
                             return
 
+
+def search_toy(ctx):
+    from ecdsa.ecdsa import RSZeroError
+    rng, q = ctx.rng, ctx.quick
     # (2) toy curves, exhaustive over d, k in [1, n-1], e in [0, n+1] (+ a few larger e): fast loop, confirm via case
     toys = E.get_fixed_toys() + E.pick_toys(rng, 1 if q else 6, nmax=31 if q else 80)
     for t in toys:
@@ -356,8 +371,12 @@ def search(ctx):
                                  "toy sign_digest %s" % ("allow" if allow else "strict")) and E.capped(ctx):
                             return
 
-    # (3) named curves: structured d, k, digests
+
+def search_named(ctx):
+    rng, q = ctx.rng, ctx.quick
+    # (3) named curves: structured d, k, digests (oracle = pure-Python affine arithmetic: evaluated in worker processes)
     small = set(E.SMALL_NAMED)
+    cases = []
     for cv in E.named_curves():
         n = int(cv.order)
         spec = E.curve_spec(cv)
@@ -368,20 +387,18 @@ def search(ctx):
             dgs = E.digests(rng, n, 1)
             for k in ks:
                 cls, dg = rng.choice(dgs)
-                if check(ctx, {"kind": "sign_digest", "curve": spec, "d": rng.choice(ds), "k": k, "digest": dg.hex(), "allow_truncate": True},
-                         "named boundary-k " + cls) and E.capped(ctx):
-                    return
+                cases.append(("named boundary-k " + cls, {"kind": "sign_digest", "curve": spec, "d": rng.choice(ds), "k": k, "digest": dg.hex(),
+                                                          "allow_truncate": True}))
             for cls, dg in dgs:
                 for allow in (True, False):
-                    if check(ctx, {"kind": "sign_digest", "curve": spec, "d": rng.choice(ds), "k": rng.randrange(1, n), "digest": dg.hex(),
-                                   "allow_truncate": allow}, "named %s %s" % (cls, "allow" if allow else "strict")) and E.capped(ctx):
-                        return
+                    cases.append(("named %s %s" % (cls, "allow" if allow else "strict"),
+                                  {"kind": "sign_digest", "curve": spec, "d": rng.choice(ds), "k": rng.randrange(1, n), "digest": dg.hex(),
+                                   "allow_truncate": allow}))
             for d in ds:
-                if check(ctx, {"kind": "pubkey", "curve": spec, "d": d}, "named pubkey") and E.capped(ctx):
-                    return
-                if check(ctx, {"kind": "sign", "curve": spec, "d": d, "e": rng.choice((0, n, n + 1, rng.getrandbits(bitlen(n) + 9))), "k": rng.randrange(1, n)},
-                         "named sign_number e in {0,n,>n}") and E.capped(ctx):
-                    return
+                cases.append(("named pubkey", {"kind": "pubkey", "curve": spec, "d": d}))
+                cases.append(("named sign_number e in {0,n,>n}", {"kind": "sign", "curve": spec, "d": d, "k": rng.randrange(1, n),
+                                                                  "e": rng.choice((0, n, n + 1, rng.getrandbits(bitlen(n) + 9)))}))
+    E.par_search(ctx, run_case, cases)
 
 
 def replay(rec):
